@@ -177,7 +177,7 @@ def counterexample(name, desc=None, unwind=None, timeout_s=600):
     # without formula slicing every kani::any() value is in the trace (what concrete playback needs); if that is
     # too expensive fall back to the sliced formula (values irrelevant to the failure are then missing and the
     # playback may not line up — the replay file says so)
-    for extra, t in ((['--no-slice-formula'] if False else [], min(timeout_s, 240)), (['--slice-formula'], timeout_s)):
+    for extra, t in (([], min(timeout_s, 120)), (['--slice-formula'], min(timeout_s, 150))):
         try:
             p = subprocess.run(base + extra, capture_output=True, text=True, timeout=t, preexec_fn=_limit)
             data = json.loads(p.stdout)
